@@ -41,6 +41,7 @@ T = {
  "C19-B": ("C19", "decimal.go Decimal.Reduce big path: one descending pass of trial divisions by 10^128..10^1", ">= 256 trailing zeros: zeros left, count 255"),
  "C20-A": ("C20", "round.go: half comparison in uint64 with remVal<<1 overflowing", "exactly 19 digits discarded with fraction >= 0.9223 under a half mode: Round not monotone"),
  "R2-C01-A": ("C01", "table.go NumDigits: float64 estimate of log10|b| trusted unless within 1e-11 of an integer (less than one ulp once the estimate exceeds 65536)", "coefficient (operand or exact intermediate) of one of 1818 specific lengths >= 65557 digits starting with >= 11 nines: digit count one too high, result rounded to p-1 digits"),
+ "R2-C02-A": ("C02", "bigint.go isZero()/decimal.go IsZero + setExponent: zero test that trusts stale inline words of a heap-backed BigInt (two cooperating edits)", "a zero computed in place on a coefficient wider than 128 bits, later used where zero is special (divisor, Inf*0, Quantize/RoundToIntegral with d==x): panic, missing DivisionByZero/InvalidOperation, or spurious Inexact"),
  "R2-C03-A": ("C03", "error.go ErrDecimal.Err: memoises its verdict per Flags value, ignoring later changes of Ctx.Traps or of Ctx", "an untrapped condition raised through an ErrDecimal, then the trap set tightened (or Ctx replaced) between calls: Err() stays nil and later destinations are written"),
  "R2-C04-A": ("C04", "table.go tableExp10: second lazily filled table of 10^(128i) with 1563 entries and no fallback", "NumDigits (or a parser) on an integer of about 200065 digits or more: index out of range panic"),
  "R2-C05-A": ("C05", "decimal.go Modf: uses frac.Coeff (or integ.Coeff) as the scratch for 10^exp", "Decimal.Modf with frac == receiver (or integ == receiver and frac nil), more than 128 fraction digits and a coefficient long enough for the point to fall inside it"),
